@@ -240,7 +240,8 @@ def run_property(prop, tier, seed):
         print(f'CHECKER-ERROR {o.id}: {o.raw}')
     for r in out_of_reach:
         print(f'OUT-OF-REACH {r["function"]}: {r["reason"]}')
-    n = len(obls)
+    known_set = {id(o) for o, _ in known}
+    n = len([o for o in obls if id(o) not in known_set])   # obligations under a recorded open finding are reported separately
     disch = sum(1 for o in obls if status(o) == 'discharged')
     by_backend = {}
     for o in obls:
@@ -273,7 +274,7 @@ def run_property(prop, tier, seed):
                         'must_fail_twins': sum(1 for o in obls if o.kind == 'twin'),
                         'paths': eng.paths, 'infeasible_branches_pruned': eng.pruned, 'dead_paths_not_counted': len(dead_paths)},
             'failed': [o.id for o, _ in failed], 'undecided': [o.id for o in undecided],
-            'known_findings_hit': sorted(seen_kf),
+            'known_findings_hit': sorted(seen_kf), 'obligations_failing_under_known_findings': len(known),
             'bounded_standins': bounded.get('report', {}),
             'samples': samples,
             'repo_sha256': repo.shas(),
